@@ -1096,6 +1096,13 @@ func TestReplay(t *testing.T) {
 	if path == "" {
 		t.Skip("no VERIF_REPLAY")
 	}
+	if hist := loadHistoryReplay(path); hist != nil {
+		t.Logf("replaying history %s", hist.Name)
+		if e := runHistory(t, *hist); e != nil {
+			enumerateLast(t, e, false)
+		}
+		return
+	}
 	h, cases, err := loadReplay(path)
 	if err != nil {
 		infra(t, err)
